@@ -174,14 +174,14 @@ func mapACPITable(tableAddr uintptr) (header *table.SDTHeader, sizeofHeader uint
 
 	// Identity-map the table header so we can access its length field
 	sizeofHeader = unsafe.Sizeof(table.SDTHeader{})
-	if headerPage, err = identityMapFn(mm.FrameFromAddress(tableAddr), sizeofHeader, vmm.FlagPresent); err != nil {
+	if headerPage, err = identityMapRange(tableAddr, sizeofHeader); err != nil {
 		return nil, sizeofHeader, err
 	}
 
 	// Expand mapping to cover the table contents
 	headerPageAddr := headerPage.Address() + vmm.PageOffset(tableAddr)
 	header = (*table.SDTHeader)(unsafe.Pointer(headerPageAddr))
-	if _, err = identityMapFn(mm.FrameFromAddress(tableAddr), uintptr(header.Length), vmm.FlagPresent); err != nil {
+	if _, err = identityMapRange(tableAddr, uintptr(header.Length)); err != nil {
 		return nil, sizeofHeader, err
 	}
 
@@ -190,6 +190,27 @@ func mapACPITable(tableAddr uintptr) (header *table.SDTHeader, sizeofHeader uint
 	}
 
 	return header, sizeofHeader, err
+}
+
+// identityMapRange identity-maps the pages that contain the size bytes starting
+// at addr and returns the page that contains addr. As addr is not necessarily
+// page-aligned, the bytes may end one page after the last page of a size-byte
+// region that begins at the start of that page.
+func identityMapRange(addr, size uintptr) (mm.Page, *kernel.Error) {
+	startFrame := mm.FrameFromAddress(addr)
+	page, err := identityMapFn(startFrame, size, vmm.FlagPresent)
+	if err != nil {
+		return 0, err
+	}
+
+	mappedEnd := startFrame.Address() + ((size + mm.PageSize - 1) &^ (mm.PageSize - 1))
+	if addr+size > mappedEnd {
+		if _, err = identityMapFn(mm.FrameFromAddress(mappedEnd), mm.PageSize, vmm.FlagPresent); err != nil {
+			return 0, err
+		}
+	}
+
+	return page, nil
 }
 
 // locateRSDT scans the memory region [rsdpLocationLow, rsdpLocationHi] looking
